@@ -95,7 +95,8 @@ type FakeTransport struct {
 	StallAt          int // -1: never; else the device goes silent once this many bytes were delivered
 	LossAt           int // -1: never; else the connection is lost once this many bytes were delivered
 	Loss             LossKind
-	WriteErrAt       int // -1: never; else the i-th Write (0-based) and all later ones fail
+	WriteErrAt       int                 // -1: never; else the i-th Write (0-based) and all later ones fail
+	FailWrite        func(b []byte) bool // when set: the first write for which it returns true fails, and all later ones
 	OnClose          CloseMode
 	WriteOKAfterLoss bool          // writes after a read-side loss succeed silently (the peer is gone, the kernel buffers)
 	LossTime         time.Duration // virtual time the first loss answer was delivered (-1: not yet)
@@ -199,6 +200,9 @@ func (t *FakeTransport) Write(b []byte) error {
 		tid = th.ID
 	}
 	t.Writes = append(t.Writes, WriteRec{Step: t.E.Step(), Data: append([]byte(nil), b...), Delivered: t.Delivered, State: st, Thread: tid})
+	if t.FailWrite != nil && t.WriteErrAt < 0 && t.FailWrite(b) {
+		t.WriteErrAt = idx // this write and every later one fail
+	}
 	if t.WriteErrAt >= 0 && idx >= t.WriteErrAt {
 		if t.WriteFailTime < 0 {
 			t.WriteFailTime = t.E.Now()
